@@ -179,6 +179,7 @@ func identShaped(s string) bool {
 }
 
 func runC15(w *World, r *Report) {
+	ruleLeafFirst(w, r)
 	const rule = "R-PREC"
 	r.Rule(rule, "precedence/arity table of infix operators: documented level order, arities, coverage of every symbolic operator of the operator table", 14)
 	table, dflt, err := infixTable(w)
@@ -515,7 +516,7 @@ func onlyReturnsFrom(b *ssa.BasicBlock) bool {
 	return true
 }
 
-var c15Witnesses = append(append(wave4WitnessesC15, infixWholeWitnesses...), []Witness{
+var c15Witnesses = append(append(append(wave4WitnessesC15, infixWholeWitnesses...), leafFirstWitnesses...), []Witness{
 	{Name: "mod-at-additive-level", Rule: "R-PREC", Edits: []Edit{
 		{File: "parser.go", Old: "	case \"*\", \"/\", \"%\":\n		return infixOpInfo{precedence: 8, childCount: 2}\n	case \"+\", \"-\":", New: "	case \"*\", \"/\":\n		return infixOpInfo{precedence: 8, childCount: 2}\n	case \"+\", \"-\", \"%\":"}}},
 	{Name: "double-equals-missing", Rule: "R-PREC", Edits: []Edit{
